@@ -252,6 +252,35 @@ impl Db {
         Ok(None)
     }
 
+    /// The best `k` matches with their scores (verification hook).
+    #[cfg(feature = "verif")]
+    pub(crate) fn verif_lookup_top(
+        &self,
+        query: &str,
+        k: usize,
+    ) -> Result<Vec<(f32, Option<Constant>)>, String> {
+        let searcher = self.reader.searcher();
+        let query_parser = QueryParser::for_index(&self.index, vec![self.field_name]);
+        let query = query_parser.parse_query(query).map_err(|e| e.to_string())?;
+        let top_docs = searcher
+            .search(&query, &TopDocs::with_limit(k))
+            .map_err(|e| e.to_string())?;
+        let mut out = Vec::new();
+
+        for (score, id) in top_docs {
+            let doc = searcher.doc(id).map_err(|e| e.to_string())?;
+
+            let c = match doc.get_first(self.field_data) {
+                Some(Value::Bytes(data)) => serde_cbor::from_slice(data).ok(),
+                _ => None,
+            };
+
+            out.push((score, c));
+        }
+
+        Ok(out)
+    }
+
     /// Load a document from the given bytes.
     pub(crate) fn load_bytes(&mut self, writer: &mut IndexWriter, bytes: &[u8]) -> Result<()> {
         let doc: Doc = load_bytes(bytes)?;
